@@ -554,7 +554,9 @@ func (a *AggregatePlan) convertToBytes(val any) ([]byte, error) {
 	case int, int8, int16, int32, int64, uint, uint8, uint16, uint32, uint64:
 		return []byte(fmt.Sprintf("%d", value)), nil
 	case float32, float64:
-		return []byte(fmt.Sprintf("%f", value)), nil
+		// %v is the shortest rendering that reads back as the same float: distinct
+		// values keep distinct group keys (%f would cut them to six decimals)
+		return []byte(fmt.Sprintf("%v", value)), nil
 	default:
 		if val == nil {
 			return nil, nil
